@@ -24,17 +24,27 @@ def optsOf (cfg : RatioCfg α) : Opts α :=
 @[simp] theorem optsOf_equal_var (cfg : RatioCfg α) : (optsOf cfg).equal_var = cfg.equal_var := rfl
 @[simp] theorem optsOf_use_t (cfg : RatioCfg α) : (optsOf cfg).use_t = cfg.use_t := rfl
 
-theorem scale_and_distr_null_eq (P : Prims α) (cfg : RatioCfg α) (cv cn tv tn : α) :
+/-- the code takes `sqrt(max(·, 0))` (a guard against a negative rounding residue); in exact
+arithmetic on valid statistics the radicand is non-negative and the guard is the identity -/
+theorem scale_and_distr_null_eq' (P : Prims α) (cfg : RatioCfg α) (cv cn tv tn : α) :
+    RatioOfMeans.scale_and_distr_null P cfg cv cn tv tn
+      = (P.sqrt (max (seSq (optsOf cfg) cv cn tv tn) 0), refDist P (optsOf cfg) cv cn tv tn, ()) := by
+  unfold RatioOfMeans.scale_and_distr_null seSq refDist degF welchDf pooledVar optsOf
+  cases cfg.equal_var <;> cases cfg.use_t <;> simp <;> (try (congr 2; ring))
+
+theorem scale_and_distr_null_eq (P : Prims α) (cfg : RatioCfg α) (cv cn tv tn : α)
+    (h : 0 ≤ seSq (optsOf cfg) cv cn tv tn) :
     RatioOfMeans.scale_and_distr_null P cfg cv cn tv tn
       = (P.sqrt (seSq (optsOf cfg) cv cn tv tn), refDist P (optsOf cfg) cv cn tv tn, ()) := by
-  unfold RatioOfMeans.scale_and_distr_null seSq refDist degF welchDf pooledVar optsOf
-  cases cfg.equal_var <;> cases cfg.use_t <;> simp <;> (try (congr 1; ring))
+  rw [scale_and_distr_null_eq', max_eq_left h]
 
 /-- the generated `_analyze_stats` IS the textbook test from summary statistics, for every
 option cell, given `isf q = −ppf q` on (0,1) and `exp (−x) = 1/exp x` -/
 theorem analyze_stats_eq_textbook (P : Prims α) (hP : P.QuantileLaws) (cfg : RatioCfg α)
     (hc0 : 0 < cfg.confidence_level) (hc1 : cfg.confidence_level < 1)
-    (cm cv cn tm tv tn : α) :
+    (cm cv cn tm tv tn : α)
+    (hse : 0 ≤ seSq (optsOf cfg) cv cn tv tn)
+    (hsel : 0 ≤ seSq (optsOf cfg) (cv / cm ^ 2) cn (tv / tm ^ 2) tn) :
     RatioOfMeans.analyze_stats P cfg cm cv cn tm tv tn
       = testFromStats P (optsOf cfg) cm cv cn tm tv tn := by
   have hisf : ∀ (v1 n1 v2 n2 : α),
@@ -48,7 +58,7 @@ theorem analyze_stats_eq_textbook (P : Prims α) (hP : P.QuantileLaws) (cfg : Ra
   have e1 : cv / cm / cm = cv / cm ^ 2 := by ring
   have e2 : tv / tm / tm = tv / tm ^ 2 := by ring
   unfold RatioOfMeans.analyze_stats testFromStats
-  simp only [scale_and_distr_null_eq, e1, e2]
+  simp only [e1, e2, scale_and_distr_null_eq P cfg _ _ _ _ hse, scale_and_distr_null_eq P cfg _ _ _ _ hsel]
   have ho : (optsOf cfg).alternative = cfg.alternative := rfl
   have hcl : (optsOf cfg).confidence_level = cfg.confidence_level := rfl
   simp only [ho, hcl]
